@@ -97,19 +97,36 @@ class Run:
 
     def verus_unit(self, uname: str, mutate=None, tag: str = "", rlimit=None, seed=None) -> VerusResult:
         u = self.units[uname]
-        try:
-            text, cmap, log = build_world(uname, self.units, self.repo, mutate=mutate)
-        except AnchorLost as e:
-            r = VerusResult(unit=uname, status="undecided", reason=f"anchor lost: {e}")
+        exclude: list = []
+        while True:
+            try:
+                text, cmap, log = build_world(uname, self.units, self.repo, mutate=mutate, exclude=tuple(exclude))
+            except AnchorLost as e:
+                r = VerusResult(unit=uname, status="undecided", reason=f"anchor lost: {e}")
+                return r
+            path = os.path.join(self.scratch, re.sub(r"\W+", "_", uname) + tag + ".rs")
+            with open(path, "w") as f:
+                f.write(text)
+            fn_names = u.verified_fns or [self.verus_fn_name(u)]
+            r = run_verus(path, uname, fn_names, cmap, rlimit=rlimit, seed=seed)
+            r.log = log
+            r.text = text
+            # a compile error inside the contract stub of ANOTHER unit (its signature changed in this tree) must not make this
+            # unit undecided: leave that stub out and try again; if this unit needs it, the next error is in its own text
+            culprit = None
+            if r.status == "undecided" and r.err_line and len(exclude) < 8:
+                cur = None
+                for i, line in enumerate(text.split("\n"), 1):
+                    m = re.match(r"/\*@@(stub|end) (.*)\*/", line.strip())
+                    if m:
+                        cur = m.group(2) if m.group(1) == "stub" else None
+                    if i == r.err_line:
+                        culprit = cur
+                        break
+            if culprit and culprit != uname and culprit not in exclude:
+                exclude.append(culprit)
+                continue
             return r
-        path = os.path.join(self.scratch, re.sub(r"\W+", "_", uname) + tag + ".rs")
-        with open(path, "w") as f:
-            f.write(text)
-        fn_names = u.verified_fns or [self.verus_fn_name(u)]
-        r = run_verus(path, uname, fn_names, cmap, rlimit=rlimit, seed=seed)
-        r.log = log
-        r.text = text
-        return r
 
     @staticmethod
     def verus_fn_name(u: Unit) -> str:
